@@ -109,7 +109,16 @@ def rule_lemire(col, facts):
                 if op.startswith("Add") and fold(f, st[2][2]) is None and fold(f, st[2][3]) is not None:
                     A = fold(f, st[2][3])
     if C is None or S is None or A is None:
-        col.bad(R, "power-shape", "lemire::power no longer has the shape (q.wrapping_mul(C) >> S) + A: cannot validate (fail closed)", f.loc())
+        # another spelling (a folded constant, `C.wrapping_mul(q)`, named constants): evaluate the single path
+        from rules.pathmodel import Model, Shape as _Shape, Panic as _Panic
+        try:
+            m_ = Model(f, "i32")
+            bad = [q for q in range(lo_q, hi_q + 1) if m_.value([q]) != D.lemire_power(q)]
+            col.check(R, "power-constants", not bad, "power(q) != floor(log2 10^q)+63 for q=%s" % bad[:5], f.loc())
+        except _Panic as e:
+            col.bad(R, "power-panic", "an overflow check can fire inside the decade range: %s" % e, f.loc())
+        except _Shape as e:
+            col.assumed("not-applied", "TBL-lemire:power", "lemire::power is neither (q.wrapping_mul(C) >> S) + A nor loop-free integer arithmetic (%s): not decided" % e, f.loc())
     else:
         bad = [q for q in range(lo_q, hi_q + 1) if ((q * C) >> S) + A != D.lemire_power(q)]
         col.check(R, "power-constants", not bad,
